@@ -511,6 +511,8 @@ def decision_walk(fn, choose, watch_locals=(), start=0, limit=4096, track=None):
                 elif rv["k"] == "un" and rv.get("op") == "Not":
                     x = opval(env, rv["a"])
                     v = None if x is None else (not x)
+                elif rv["k"] == "bin" and track.get("bin_value"):
+                    v = track["bin_value"](rv)      # a comparison the caller can decide for this case
                 if v is None or s["lhs"]["l"] in escaped:
                     env.pop(s["lhs"]["l"], None)
                 else:
